@@ -659,6 +659,8 @@ class Node:
                 # raise NotImplementedError("Cross-tree adding")
             if data_id and data_id != source_node._data_id:
                 raise UniqueConstraintError(f"data_id conflict: {source_node}")
+            # The copy is a clone, i.e. it shares the (possibly custom) data_id
+            data_id = source_node._data_id
 
             # If creating an inherited node, use the parent class as constructor
             child_class = child.__class__
